@@ -138,6 +138,9 @@ func compareModel(res []result, o *common.Options, rep *common.Report) error {
 		for _, u := range c.Users {
 			toks = append(toks, hx(token(u)))
 		}
+		if len(toks) == 0 {
+			toks = []string{"-"}
+		}
 		l2 = append(l2, "cfg "+b01(c.Auth)+" "+strings.Join(toks, ","))
 		sp := span{reqAt: len(l2)}
 		for j, q := range c.Reqs {
